@@ -11,6 +11,9 @@ import vlib
 ELEM_TYPES = ['Int', 'Float', 'String', 'Ref', 'Tuple', 'Array', 'List', 'Table', 'Tree', 'Function', 'U0', 'U1']
 STACK_TYPES = ['Int', 'Float', 'String', 'Ref', 'Tuple', 'Function', 'U0', 'U1']     # struct Array/List/Table/Tree are private
 KEY_TYPES = ['Int', 'Float', 'String', 'Ref', 'Tuple', 'U0']
+GROW_KEY_TYPES = ['Int', 'Float', 'String']      # the harness can make 24 distinct keys of these
+EXTRA_TYPES = ['Box', 'Range', 'File', 'Mutex']   # only constructed / put on the stack, never stored in containers
+EXTRA_STACK = ['Box', 'Range', 'File']            # struct Mutex is private
 CONTS_GET = ['Array', 'List', 'TableV', 'TreeV']
 CONTS_ITER = ['Array', 'List', 'TableK', 'TreeK']
 DELETING = ['del', 'del_raw', 'del_root', 'dealloc', 'dealloc_raw', 'dealloc_root']
@@ -53,6 +56,24 @@ def producers():
         for inner in ('raw', 'elem'):
             out.append((T, 'Int', 'Int', 'tget:' + inner, T, True))
             out.append((T, 'Int', 'Int', 'titer:' + inner, T, True))
+    for T in ELEM_TYPES:
+        # elements obtained after the container was grown (realloc / rehash moved them) and shrunk
+        for c in ('Array', 'List'):
+            out.append((T, 'Int', 'Int', 'get:%s+g' % c, T, True))
+            out.append((T, 'Int', 'Int', 'iter:%s+g' % c, T, True))
+            out.append((T, 'Int', 'Int', 'last:%s+g' % c, T, True))
+        for c in ('Table', 'Tree'):
+            for K in GROW_KEY_TYPES:
+                out.append(('Int', K, T, 'get:%sV+g' % c, T, True))
+            if T in GROW_KEY_TYPES:
+                out.append(('Int', T, 'Int', 'iter:%sK+g' % c, T, True))
+                out.append(('Int', T, 'Int', 'last:%sK+g' % c, T, True))
+    for T in EXTRA_TYPES:
+        for p in HEAP_PRODUCERS:
+            if p != 'copy':
+                out.append((T, 'Int', 'Int', p, T, not p.startswith('alloc')))
+    for T in EXTRA_STACK:
+        out.append((T, 'Int', 'Int', 'stack', T, True))
     for T in STACK_TYPES:
         out.append((T, 'Int', 'Int', 'stack', T, True))
         out.append((T, 'Int', 'Int', 'tget:stack', T, True))
@@ -89,6 +110,13 @@ def matrix():
             for op in ops_for(ot, ngc, constructed):
                 if op == 'sweep' and base in ('range_heap', 'zip_heap'):
                     continue      # released by their owner's destructor: C06 (defect D18), not this property
+                if T == 'Range' and ngc and ((base.startswith('alloc') and op.startswith('del') and not op.startswith('dealloc'))
+                                             or (base == 'stack' and op == 'destruct')):
+                    # Range_Del is del(r->value): on a merely alloc'ed Range that is del(NULL) (ValueError), on a
+                    # stack Range it is del of its stack Int (ResourceError without the collector). Both are the
+                    # destructor refusing, nothing is released; the model has no "owner" kind, so these 10 cells
+                    # are left out of the correspondence (listed in design.d/C19.md)
+                    continue
                 cases.append('%d %s %s %s %s %s' % (ngc, T, K, V, p, op))
             for h in MATCHED[ngc].get(base, []):
                 if ',' in h:
@@ -284,13 +312,13 @@ def run(ctx):
                 ctx.findings.append(f)
     ctx.cov['rule'] = (
         'EXHAUSTIVE finite matrix, no sampling: every (type in %s + Type) x (producer: new/new_raw/new_root/alloc/alloc_raw/'
-        'alloc_root/copy/$-stack/static type object/run-time type/get of Array,List,Table,Tree/iter_init,iter_last,iter_next,'
+        'alloc_root/copy/$-stack/static type object/run-time type/get of Array,List,Table,Tree (fresh, and after growth+shrinking moved the elements)/iter_init,iter_last,iter_next,'
         'iter_prev of each container/items of slice,filter,map views/range and zip items (stack and heap form)/Tuple members) '
         'x (operation: del,del_raw,del_root,dealloc,dealloc_raw,dealloc_root,destruct,sweep + every reallocating member of String '
         'and Tuple) x (collector compiled in / -DCELLO_NGC), plus the matched delete/sweep histories of heap objects, plus seeded '
         'random operation histories (length 2-6) on non-heap objects. A cell is non-trivial unless it is an `ok` step without any '
         'free/realloc event on a plain heap object; distinct = distinct implementation transcripts per cell'
-        % ','.join(ELEM_TYPES))
+        % ','.join(ELEM_TYPES + EXTRA_TYPES))
     ctx.assumptions += [
         'C text tied by correspondence only: extracted Gallina model vs library built from the working tree; header words read '
         'directly, free/realloc interposed with -Wl,--wrap',
@@ -305,7 +333,10 @@ def run(ctx):
     h_ngc = ctx.build_harness('header_matrix.c', tag='ngc', extra=wrap)
     if not quick:
         san = ['-fsanitize=address', '-fno-omit-frame-pointer']
-        ctx.build_lib('asan', cflags=san)
+        asan = ctx.build_lib('asan', cflags=san)
+        # the conservative stack scan of GC.c reads across frames on purpose; Cello.h exempts it from
+        # ASan only under clang (CELLO_NASAN), so with gcc take GC.o from the uninstrumented build
+        vlib.sh(['ar', 'r', asan['a'], ctx.libs['default']['objs']['GC']])
         h_asan = ctx.build_harness('header_matrix.c', tag='asan', extra=wrap + san)
     env = dict(os.environ, ASAN_OPTIONS='detect_leaks=0:abort_on_error=1')
 
